@@ -268,6 +268,19 @@ func (e *Environment) SetLocal(name string, val object.Object) object.Object {
 	return val
 }
 
+// Declare creates (or updates) a variable in the innermost scope only.
+//
+// Unlike SetLocal this never touches a variable of the same name which
+// lives in an enclosing scope: it is used to bind function parameters,
+// `local` variables and the variables of a `foreach` loop, which must
+// shadow - not overwrite - those of callers and of enclosing loops.
+func (e *Environment) Declare(name string, val object.Object) object.Object {
+	if len(e.local) > 0 {
+		e.local[len(e.local)-1][name] = val
+	}
+	return val
+}
+
 // SetFunction makes a (golang) function available to the scripting
 // environment.
 func (e *Environment) SetFunction(name string, fun interface{}) interface{} {
